@@ -392,6 +392,19 @@ def main(argv=None):
     if hasattr(plugin, 'corpus'):
         cases += plugin.corpus()
     cases += plugin.cases(rng, tier)
+    # ---- escalation: when the modelled sources differ from the tree the models were last validated on (harness/fingerprint.py), the
+    #      quick tier draws further batches of cases; a differing fingerprint is never a violation by itself
+    escalated = []
+    try:
+        import fingerprint
+        escalated = fingerprint.changed_files()
+    except Exception as e:
+        log('[F] fingerprint unavailable: %s' % e)
+    if escalated and tier == 'quick':
+        nb = int(os.environ.get('VERIF_ESCALATE', '2') or 0)
+        for k in range(nb):
+            cases += plugin.cases(random.Random(seed * 1000003 + 17 + 7919 * (k + 1)), 'quick')
+        log('[F] sources changed since the models were validated (%s): %d further batches of cases' % (', '.join(escalated), nb))
     results = run_impl(plugin, cases)
 
     # ---- stage C: property predicate on the implementation
@@ -552,6 +565,7 @@ def main(argv=None):
                                'mismatches': len(b_fail), 'input_distribution': hist},
             'impl_property_search': {'evaluations': len(cases), 'failing': len(c_fail)},
             'partial': getattr(plugin, 'PARTIAL', ''),
+            'sources_changed_since_validation': escalated,
         },
         'assumptions': getattr(plugin, 'ASSUMPTIONS', []),
         'wall_s': round(time.time() - t0, 1),
